@@ -378,14 +378,25 @@ func (g *G) genAssets() {
 			if i > 0 && !t.Chance("tpl_tr", 1, 2) {
 				continue
 			}
+			comps := []any{
+				J{"name": "body", "type": "body/text", "content": "Hi {{1}}, your code is {{2}}", "display": "", "variables": J{"1": 0, "2": 1}},
+				J{"name": "button.0", "type": "button/quick_reply", "content": "{{1}}", "display": "", "variables": J{"1": 2}},
+			}
+			// other button kinds, filled from the same variables (which may be long)
+			if t.Chance("tpl_url_button", 1, 2) {
+				comps = append(comps, J{"name": "button.1", "type": "button/url", "content": "http://example.com/?code={{1}}", "display": "", "variables": J{"1": 1}})
+			}
+			if t.Chance("tpl_phone_button", 1, 2) {
+				comps = append(comps, J{"name": "button.2", "type": "button/phone_number", "content": "{{1}}", "display": "", "variables": J{"1": 0}})
+			}
+			if t.Chance("tpl_header", 1, 3) {
+				comps = append([]any{J{"name": "header", "type": "header/text", "content": "For {{1}}", "display": "", "variables": J{"1": 0}}}, comps...)
+			}
 			trs = append(trs, J{
-				"channel": J{"uuid": s.Channels[0].UUID, "name": s.Channels[0].Name},
-				"locale":  l + "-US",
-				"components": []any{
-					J{"name": "body", "type": "body/text", "content": "Hi {{1}}, your code is {{2}}", "display": "", "variables": J{"1": 0, "2": 1}},
-					J{"name": "button.0", "type": "button/quick_reply", "content": "{{1}}", "display": "", "variables": J{"1": 2}},
-				},
-				"variables": []any{J{"type": "text"}, J{"type": "text"}, J{"type": "text"}},
+				"channel":    J{"uuid": s.Channels[0].UUID, "name": s.Channels[0].Name},
+				"locale":     l + "-US",
+				"components": comps,
+				"variables":  []any{J{"type": "text"}, J{"type": "text"}, J{"type": "text"}},
 			})
 		}
 		s.Template = append(s.Template, J{"uuid": tuuid, "name": "welcome", "translations": trs})
@@ -430,7 +441,8 @@ func (g *G) genQuery(depth int) string {
 	case "tickets":
 		return []string{`tickets > 0`, `tickets = 0`, `tickets = 1`, `tickets != 0`}[t.Pick("qtickets", 4)]
 	case "urn_scheme":
-		return []string{`tel != ""`, `tel = ""`, `facebook != ""`, `telegram = ""`, `tel ~ "555"`, `urn ~ "12065"`, `whatsapp != ""`, `mailto != ""`}[t.Pick("qurn", 8)]
+		return []string{`tel != ""`, `tel = ""`, `facebook != ""`, `telegram = ""`, `tel ~ "555"`, `urn ~ "12065"`, `whatsapp != ""`, `mailto != ""`,
+			`tel != "+12065557002"`, `tel = "+12065557002"`, `tel != "+12065557001"`, `telegram != "7001002"`, `facebook = "7001001"`, `tel != "+12065557003"`}[t.Pick("qurn", 14)]
 	case "created_on":
 		return []string{`created_on > "2000-01-01"`, `created_on < "2020-01-01"`, `created_on = "2018-06-20"`, `created_on >= "2019-03-05"`, `created_on = "2019-03-06"`, `created_on > "1999-12-31"`, `created_on <= "2020-02-28"`}[t.Pick("qcreated", 7)]
 	default:
